@@ -1464,6 +1464,10 @@ FINDINGS = {
     "sequence_pattern_str": "C02-sequence-pattern-str",
     "assert_promotion": "C02-assert-promotion",
     "generic_pattern_negative": "C02-generic-typeis-negative",
+    # attributed by the executed-program stream (c02_programs.attribute)
+    "nonelementwise_container": "C02-in-nonelementwise-container",
+    "callee_leak": "C02-callee-constraint-leak",
+    "subpattern_on_subject": "C02-subpattern-constraint-on-subject",
 }
 COQ_HEADER = ("From Coq Require Import ZArith List Bool NArith. Import ListNotations.\n"
               "Require Import PV.Narrow.Base PV.Narrow.Model PV.Narrow.Guards.\n"
@@ -1489,9 +1493,15 @@ def run(tier: str, replay: str | None = None):
     svals = all_svals()
     leaves = all_leaves()
     cases = []
+    stream_replay = None
     if replay:
         r = json.loads(Path(replay).read_text())
-        cases.append((T(r["input"]["value"]), T(r["input"]["cond"])))
+        if str(r.get("route", "")).startswith(("e2e-executed-program", "e2e-stored-condition")):
+            # a failing input of one of the executed-program streams: that program is re-run below
+            stream_replay = r
+            cases.append((((("typed", "int"), ()),), ("truthy",)))
+        else:
+            cases.append((T(r["input"]["value"]), T(r["input"]["cond"])))
     else:
         cases += load_corpus()
         # every (single value, leaf condition) pair in both tiers
@@ -1653,6 +1663,8 @@ def run(tier: str, replay: str | None = None):
 
     # 3c. stored-condition programs, executed under CPython
     stored = stored_cases(random.Random(lib.seed() * 9173 + 11), 0 if replay else (150 if tier == "quick" else 2000))
+    if stream_replay is not None and stream_replay["route"] == "e2e-stored-condition":
+        stored = [T(stream_replay["input"]["stored"])]
     stored_failures = []
     try:
         st_res = impl_e2e({k: stored_src(k, *sc, False) for k, sc in enumerate(stored)}) if stored else {}
@@ -1672,6 +1684,66 @@ def run(tier: str, replay: str | None = None):
         rep.violation({"kind": "failing-input", "route": "e2e-stored-condition", "input": {"stored": stored[k]}, "call": f"f_{k}({arg}, {flag}, {n})",
                        "object_bound_at_the_recording_point": bound, "branch_slot": slot, "source": stored_src(k, *stored[k], False), "observed": out,
                        "expected": "the object bound to x where the branch on the stored flag is taken belongs to the value inferred there"})
+
+    # 3d. `x in "<s>"`: Model.instr_narrow vs InPredicate on the str container (constrain_value) and vs annotate_code
+    instr_mismatch = []
+    instr_cases = []
+    if not replay:
+        strs = ["", "a", "ab", "abc", "c", "zz"]
+        singles = [(("typed", "str"), ()), (("typed", "object"), ()), (("any",), ()), (("typed", "int"), ()), (("known", ("int", 1)), ()), (("known", ("none",)), ()),
+                   (("typed", "str"), (("min", 1),))] + [(("known", ("str", t)), ()) for t in strs]
+        unions = [((("known", ("str", "ab")), ()), (("known", ("str", "zz")), ()), (("known", ("str", "c")), ())), ((("known", ("str", "ab")), ()), (("typed", "int"), ())),
+                  ((("typed", "str"), ()), (("known", ("none",)), ())), ((("known", ("str", "")), ()), (("known", ("str", "a")), ()), (("known", ("str", "abc")), ()))]
+        instr_cases = [(v, s) for s in ("abc", "", "a", "ab") for v in [(sv,) for sv in singles] + unions]
+    try:
+        if instr_cases:
+            from pyanalyze.predicates import InPredicate as _InP
+            from pyanalyze.stacked_scopes import Constraint as _Con, ConstraintType as _CT, VarnameWithOrigin as _VO, constrain_value as _cv
+
+            mres = norm(lib.coq_eval(COQ_HEADER, [f"[instr_narrow {value_coq(v)} {coq_str(s)} true; instr_narrow {value_coq(v)} {coq_str(s)} false]" for v, s in instr_cases], name="c02s", shard=200, jobs=2))
+            srcs_s = {}
+            for k, (v, s) in enumerate(instr_cases):
+                if all(b[0] == "any" or (b[0] == "typed" and b[1] in ("str", "object")) or (b[0] == "known" and b[1][0] == "str") for b, _ in v) and value_src(v) is not None:
+                    srcs_s[k] = f"def f_{k}(x: {value_src(v)}):\n    if x in {s!r}:\n        M1 = x\n    else:\n        M2 = x\n"
+            e2e_s = impl_e2e(srcs_s)
+            for k, (v, s) in enumerate(instr_cases):
+                con = _Con(_VO("x"), _CT.predicate, True, _InP(s, str if s else object, ctx()))
+                want = [model_value(mres[k][0]), model_value(mres[k][1])]
+                routes = {"api": [decode_value(_cv(value_value(v), a)) for a in (con, con.invert())]}
+                if k in e2e_s:
+                    routes["e2e"] = e2e_s[k]
+                for rname, outs in routes.items():
+                    for pol, out, m in zip((True, False), outs, want):
+                        if isinstance(out, frozenset) and out != m:
+                            instr_mismatch.append((k, rname, pol, sorted(map(str, out)), sorted(map(str, m))))
+    except Exception as ex:
+        rep.violation({"kind": "broken-correspondence", "correspondence": "Model.instr_narrow vs InPredicate on a str container", "detail": repr(ex)[-1500:]}, no_failing_input=True)
+
+    # 3e. executed programs (harness/c02_programs.py): containers with a non-elementwise __contains__, helper leaks,
+    #     `case ... as p`, protocol truthiness; membership decided on the raw Value
+    import c02_programs as _P
+
+    prog_failures, prog_known, progs = [], {}, []
+    try:
+        sel = None
+        if stream_replay is not None and stream_replay["route"].startswith("e2e-executed-program"):
+            kind = stream_replay["route"].split(":", 1)[1]
+            sel = [p for p in _P.generate("thorough", 0, False) if p["kind"] == kind and p["input"] == stream_replay["input"]]
+        progs, prog_failures, prog_known, prog_oof = _P.run_stream(tier, lib.seed(), bool(replay), progs=sel)
+    except Exception as ex:
+        rep.violation({"kind": "broken-correspondence", "correspondence": "executed programs (c02_programs)", "detail": repr(ex)[-1500:]}, no_failing_input=True)
+    seen_p = set()
+    for (k, slot, bound, args, inferred) in prog_failures:
+        if k in seen_p or len(seen_p) >= 4:
+            continue
+        seen_p.add(k)
+        rep.violation({"kind": "failing-input", "route": "e2e-executed-program:" + progs[k]["kind"], "input": progs[k]["input"], "call": f"f_{k}{args}", "branch_slot": slot,
+                       "object_bound_at_the_recording_point": bound, "observed": inferred, "source": _P.render(progs[k], k, False),
+                       "expected": "the object bound where the branch is taken belongs to the value inferred there"})
+    if instr_mismatch and not prog_failures:
+        k, rname, pol, out, m = instr_mismatch[0]
+        rep.violation({"kind": "broken-correspondence", "correspondence": f"Model.instr_narrow vs {rname} [{pol}]", "input": {"value": instr_cases[k][0], "container": instr_cases[k][1]},
+                       "observed": out, "model": m, "mismatches": len(instr_mismatch)}, no_failing_input=True)
 
     _t["e2e"] = _time.time()
     # 4. model: join the evaluation thread started above
@@ -1848,6 +1920,15 @@ def run(tier: str, replay: str | None = None):
             rep.known(fid, kf[fid]["what"])
         else:
             new_failures.append((i, rname, pol, j, "unlisted-finding:" + name))
+    for name, (k, slot, bound) in sorted(prog_known.items()):
+        fid = FINDINGS[name]
+        if name in known_hits:
+            continue
+        if fid in kf:
+            rep.known(fid, kf[fid]["what"])
+        else:
+            rep.violation({"kind": "failing-input", "route": "e2e-executed-program:" + progs[k]["kind"], "input": progs[k]["input"], "failure": "unlisted-finding:" + name,
+                           "object_bound_at_the_recording_point": bound, "source": _P.render(progs[k], k, False)})
 
     seen = set()
     for (i, rname, pol, j, kind) in new_failures:
@@ -1861,7 +1942,7 @@ def run(tier: str, replay: str | None = None):
                                   "expected": "object stays in the narrowed value of the branch it takes / nothing outside V and the tested type / verdict right for every member"}))
         if len(seen) >= 10:
             break
-    found_input = bool(new_failures)
+    found_input = bool(new_failures) or bool(prog_failures) or bool(stored_failures) or bool(alt_failures)
     if corr and not found_input:
         i, what, iv, mv = corr[0]
         rep.violation(payload(i, {"kind": "broken-correspondence", "correspondence": f"Narrow.Model.narrow/boolab_of vs constrain_value/annotate_code/get_boolability [{what}]",
@@ -1888,6 +1969,10 @@ def run(tier: str, replay: str | None = None):
         oracle_failures_attributed={k: True for k in known_hits},
         spec_vs_cpython_pairs=len(full_idx) * len(objs) if model is not None else 0,
         exhaustive=(tier == "thorough" and not replay),
+        executed_programs=len(progs),
+        executed_program_failures=len(prog_failures),
+        str_container_correspondence_cases=len(instr_cases),
+        str_container_correspondence_mismatches=len(instr_mismatch),
         stored_condition_programs=len(stored),
         stored_condition_failures=len(stored_failures),
         union_valued_condition_cases=len(alts),
